@@ -13,6 +13,7 @@ package internal
 //@ func (StrictProtoCodec).MarshalAppend
 //@   modifies wireFmt, []byte
 //@   ensures @binary result_1 == nil ==> wireFmt[slicebase(result_0)] == 1
+//@   ensures @appends result_1 == nil ==> len(result_0) >= len(b) && (forall i int :: 0 <= i && i < len(b) ==> result_0[i] == old(b[i]))
 
 //@ func (StrictProtoCodec).Marshal
 //@   modifies wireFmt, []byte
@@ -30,6 +31,7 @@ package internal
 //@ func (StrictJSONCodec).MarshalAppend
 //@   modifies wireFmt, []byte
 //@   ensures @json result_1 == nil ==> wireFmt[slicebase(result_0)] == 2
+//@   ensures @appends result_1 == nil ==> len(result_0) >= len(b) && (forall i int :: 0 <= i && i < len(b) ==> result_0[i] == old(b[i]))
 
 //@ func (StrictJSONCodec).Marshal
 //@   modifies wireFmt, []byte
